@@ -1,0 +1,82 @@
+//! Seams used by an external verification harness.  Nothing here is compiled
+//! unless the `verif-hooks` cargo feature is enabled, and with no hook
+//! installed every function is a no-op (or a deterministic sorted order).
+use std::cell::RefCell;
+use std::collections::{HashMap, HashSet};
+use std::sync::atomic::{AtomicUsize, Ordering};
+
+/// Scheduling point kinds.
+pub const POINT_GENSYM: u32 = 1;
+pub const POINT_INTMODE_SET: u32 = 2;
+pub const POINT_INTMODE_RESTORE: u32 = 3;
+
+static POINT_HOOK: AtomicUsize = AtomicUsize::new(0);
+
+/// Install (or clear) the process-wide scheduling-point callback.
+pub fn set_point_hook(f: Option<fn(u32)>) {
+    POINT_HOOK.store(f.map(|f| f as usize).unwrap_or(0), Ordering::SeqCst);
+}
+
+/// Called at every access to state shared between compilations.
+pub fn point(kind: u32) {
+    let p = POINT_HOOK.load(Ordering::SeqCst);
+    if p != 0 {
+        // Safety: only ever stored from a `fn(u32)` in set_point_hook.
+        let f: fn(u32) = unsafe { std::mem::transmute::<usize, fn(u32)>(p) };
+        f(kind);
+    }
+}
+
+type OrderFn = Box<dyn FnMut(&'static str, usize) -> Vec<usize>>;
+
+thread_local! {
+    static ORDER_HOOK: RefCell<Option<OrderFn>> = const { RefCell::new(None) };
+}
+
+/// Install (or clear) this thread's iteration-order callback: given a site
+/// name and a collection size n it returns a permutation of 0..n.
+pub fn set_order_hook(f: Option<OrderFn>) {
+    ORDER_HOOK.with(|h| *h.borrow_mut() = f);
+}
+
+fn permute<T>(site: &'static str, mut sorted: Vec<T>) -> Vec<T> {
+    let n = sorted.len();
+    let perm = ORDER_HOOK.with(|h| h.borrow_mut().as_mut().map(|f| f(site, n)));
+    match perm {
+        Some(p) if p.len() == n => {
+            let mut slots: Vec<Option<T>> = sorted.drain(..).map(Some).collect();
+            p.into_iter().filter_map(|i| slots.get_mut(i).and_then(|s| s.take())).collect()
+        }
+        _ => sorted,
+    }
+}
+
+/// A map presented in a harness-chosen iteration order (sorted by key by default).
+pub struct OrderedMap<K, V>(Vec<(K, V)>);
+
+impl<K, V> OrderedMap<K, V> {
+    pub fn iter(&self) -> impl Iterator<Item = (&K, &V)> {
+        self.0.iter().map(|(k, v)| (k, v))
+    }
+}
+
+pub fn ordered_map<K: Ord, V>(site: &'static str, m: HashMap<K, V>) -> OrderedMap<K, V> {
+    let mut v: Vec<(K, V)> = m.into_iter().collect();
+    v.sort_by(|a, b| a.0.cmp(&b.0));
+    OrderedMap(permute(site, v))
+}
+
+/// A set presented in a harness-chosen iteration order (sorted by default).
+pub struct OrderedSet<T>(Vec<T>);
+
+impl<T> OrderedSet<T> {
+    pub fn iter(&self) -> std::slice::Iter<'_, T> {
+        self.0.iter()
+    }
+}
+
+pub fn ordered_set<T: Ord + Clone>(site: &'static str, s: &HashSet<T>) -> OrderedSet<T> {
+    let mut v: Vec<T> = s.iter().cloned().collect();
+    v.sort();
+    OrderedSet(permute(site, v))
+}
